@@ -347,9 +347,13 @@ func genC14(t *rapid.T) c14Case {
 	size := rapid.IntRange(2, 7).Draw(t, "size")
 	c.Setup = []op{{K: "set", A: size, B: 0, C: rapid.IntRange(0, size-1).Draw(t, "ownpos"), D: 1}}
 	state := func(t *rapid.T, m int) []op {
-		switch rapid.SampledFrom([]string{"signed", "signed", "signed", "parked", "done", "late", "none"}).Draw(t, "state") {
+		switch rapid.SampledFrom([]string{"signed", "signed", "signed", "parked", "done", "late", "none", "peer-first", "rotate"}).Draw(t, "state") {
 		case "signed": // observed, own signature delivered, below quorum
 			return []op{{K: "observe", A: m}, {K: "loopback", A: 0}}
+		case "peer-first": // a peer's observation (naming another transaction) arrives before the node's own
+			return []op{{K: "gossip", A: m, B: 1, C: obsKindIdx("valid-other-tx"), D: rapid.IntRange(0, 50).Draw(t, "otx")}, {K: "observe", A: m}, {K: "loopback", A: 0}}
+		case "rotate": // the guardian set is replaced while entries are pending
+			return []op{{K: "set", A: rapid.IntRange(2, 7).Draw(t, "size2"), B: rapid.IntRange(0, 3).Draw(t, "off"), C: rapid.IntRange(0, 1).Draw(t, "ownpos2"), D: 1}}
 		case "parked":
 			return []op{{K: "gossip", A: m, B: 1, C: 0}}
 		case "done":
